@@ -231,8 +231,16 @@ def mk(desc):
 
         if desc[2] in ('unique_together', 'index_together'):
             value = [tuple(item) for item in value]
-        elif desc[2] in ('indexes', 'constraints'):
+        elif desc[2] == 'indexes':
             value = [dict(item) for item in value]
+        elif desc[2] == 'constraints':
+            # Constraint.deconstruct() (what signatures and hinted
+            # evolutions hold) has 'fields' as a tuple.
+            value = [dict(item) for item in value]
+
+            for item in value:
+                if isinstance(item.get('fields'), list):
+                    item['fields'] = tuple(item['fields'])
 
         return M.ChangeMeta(desc[1], desc[2], value)
 
@@ -769,6 +777,135 @@ def rows_by_name(rows):
             key=lambda item: json.dumps(item, sort_keys=True, default=repr))
 
     return result
+
+
+def schema_ctx(final_sig, rebuilt_tables):
+    """Facts about the expected models used to attribute schema differences
+    to recorded root causes (see ``classify_schema_atom``)."""
+    ctx = {'rebuilt': sorted(t for t in rebuilt_tables if t), 'tables': {}}
+
+    for _model, msig in (final_sig or {}).items():
+        table = msig['meta']['db_table']
+        cols = dict((f, _field_col(f, info))
+                    for f, info in msig['fields'].items())
+        meta_indexes = []
+
+        def add(fields):
+            if fields:
+                meta_indexes.append([cols.get(f.lstrip('-'), f)
+                                     for f in fields])
+
+        for prop in ('unique_together', 'index_together'):
+            for item in msig['meta'].get(prop) or []:
+                add(item)
+
+        for item in msig['meta'].get('indexes') or []:
+            add(item.get('fields'))
+
+        for item in msig['meta'].get('constraints') or []:
+            add((item.get('attrs') or {}).get('fields'))
+
+        ctx['tables'][table] = {
+            'meta_indexes': meta_indexes,
+            'positive': [cols[f] for f, info in msig['fields'].items()
+                         if info['type'].endswith('PositiveIntegerField')],
+        }
+
+    return ctx
+
+
+def schema_atoms(diff):
+    """Split a ``schema_diff`` result into single differences."""
+    atoms = []
+
+    for entry in diff:
+        table, what = entry['table'], entry['what']
+
+        if what in ('missing-table', 'unexpected-table'):
+            atoms.append({'table': table, 'kind': what, 'item': None})
+        elif what == 'columns':
+            for col, value in sorted(entry['expected'].items()):
+                if col in entry['actual']:
+                    atoms.append({'table': table, 'kind': 'column-differs',
+                                  'item': [col, entry['actual'][col],
+                                           value]})
+                else:
+                    atoms.append({'table': table, 'kind': 'column-missing',
+                                  'item': [col, value]})
+
+            for col, value in sorted(entry['actual'].items()):
+                if col not in entry['expected']:
+                    atoms.append({'table': table, 'kind': 'column-extra',
+                                  'item': [col, value]})
+        else:
+            actual = list(entry['actual'])
+            expected = list(entry['expected'])
+
+            for item in list(expected):
+                if item in actual:
+                    actual.remove(item)
+                    expected.remove(item)
+
+            singular = {'indexes': 'index', 'index_conditions':
+                        'index-condition', 'checks': 'check',
+                        'foreign_keys': 'foreign-key'}[what]
+
+            for item in expected:
+                atoms.append({'table': table, 'kind': singular + '-missing',
+                              'item': item})
+
+            for item in actual:
+                atoms.append({'table': table, 'kind': singular + '-extra',
+                              'item': item})
+
+    return atoms
+
+
+def classify_schema_atom(atom, ctx):
+    """Attribute one schema difference to a recorded root cause (or None).
+
+    Deliberately narrow: anything not exactly of a recorded shape stays
+    unexplained and the failure stays ``known: False``.
+    """
+    table = atom['table']
+    info = ctx['tables'].get(table)
+    rebuilt = table in ctx['rebuilt']
+    kind, item = atom['kind'], atom['item']
+
+    if info is None:
+        return None
+
+    if kind == 'check-missing':
+        m = re.match(r'^\("([^"]+)" >= 0\)$', item)
+
+        if m and m.group(1) in info['positive']:
+            return 'positive-integer-check-not-created'
+
+        if rebuilt:
+            return 'rebuild-loses-table-level-objects'
+
+    if kind == 'index-missing' and rebuilt and \
+       list(item[1]) in info['meta_indexes']:
+        return 'rebuild-loses-table-level-objects'
+
+    if kind == 'index-condition-missing' and rebuilt:
+        return 'rebuild-loses-table-level-objects'
+
+    return None
+
+
+def explain_schema_diff(diff, final_sig, rebuilt_tables):
+    """``{'atoms': [...], 'causes': [...]}`` for a schema diff."""
+    ctx = schema_ctx(final_sig, rebuilt_tables)
+    atoms = schema_atoms(diff)
+    causes = set()
+
+    for atom in atoms:
+        atom['cause'] = classify_schema_atom(atom, ctx)
+        causes.add(atom['cause'] or '?')
+
+    return {'atoms': atoms, 'causes': sorted(causes),
+            'rebuilt': ctx['rebuilt']}
 
 
 # ---------------------------------------------------------------------------
@@ -1414,10 +1551,13 @@ def _compare_outcomes(first, second, prefix, failures, first_name,
     diff = schema_diff(first['schema'], second['schema'])
 
     if diff:
-        failures.append((prefix + '-schema', {
+        rebuilt = set(first.get('rebuilds') or {}) | \
+            set(second.get('rebuilds') or {})
+        failures.append((prefix + '-schema', dict({
             'differs': '%s (actual) vs %s (expected)'
                        % (first_name, second_name),
-            'diff': diff}))
+            'diff': diff},
+            **explain_schema_diff(diff, second['final_sig'], rebuilt))))
 
     delta = _rows_delta(first['rows'], second['rows'])
 
@@ -1635,6 +1775,1541 @@ def suite_C03(tier='quick', seed=0):
 def replay_C03(inputs):
     _setup()
     out = _eval_task(('C03', inputs))
+
+    return {'reproduced': bool(out['failures']),
+            'clauses': sorted(set(c for c, _o in out['failures'])),
+            'failures': H.to_jsonable(out['failures']),
+            'skipped': out.get('skipped'),
+            'internal_error': out.get('internal_error')}
+
+
+# ---------------------------------------------------------------------------
+# Row helpers shared by C01 / C02
+# ---------------------------------------------------------------------------
+
+_TYPE_VALUES = {
+    'CharField': ['plain', '', "it's", '100%', 'dq"uote', '%s %d'],
+    'TextField': ['text', '', "o'text", '50% off', 'line\nbreak', '%(x)s'],
+    'IntegerField': [1, 0, -1, 2147483647, -2147483648, 42],
+    'BigIntegerField': [9223372036854775807, 0, -9223372036854775808, 5,
+                        -5, 1099511627776],
+    'PositiveIntegerField': [0, 1, 2147483647, 7, 8, 9],
+    'BooleanField': [1, 0, 1, 0, 1, 0],
+    'DecimalField': [12.5, 0, -0.25, 9999.99, -9999.99, 1],
+    'DateTimeField': ['2020-01-02 03:04:05', '1970-01-01 00:00:00',
+                      '2038-01-19 03:14:07.999999', '2000-02-29 12:00:00',
+                      '1999-12-31 23:59:59', '2024-06-30 00:00:00.000001'],
+}
+
+_TYPE_INITIAL = {
+    'CharField': 'ini',
+    'TextField': "t'x%t",
+    'IntegerField': 3,
+    'BigIntegerField': 1099511627776,
+    'PositiveIntegerField': 4,
+    'BooleanField': True,
+    'DecimalField': 1.5,
+    'DateTimeField': '2001-02-03 04:05:06',
+    'ForeignKey': 1,
+    'OneToOneField': 1,
+}
+
+
+def auto_rows(spec, count, null_every=3, safe=False):
+    """Deterministic rows for every model of a spec.
+
+    Unique columns get distinct values, nullable columns are NULL in every
+    ``null_every``-th row (starting with the 2nd), relation columns point at
+    row ``i`` of the target (which gets ``count`` rows as well) and
+    auto-created many-to-many tables get one link per row.
+    """
+    rows = OrderedDict()
+    m2m = OrderedDict()
+
+    for model_name, model_spec in spec.items():
+        table_rows = []
+        table = (model_spec.get('meta') or {}).get(
+            'db_table', 'tests_%s' % model_name.lower())
+
+        for i in range(count):
+            row = OrderedDict()
+
+            for fname, (ftype, kwargs) in model_spec['fields'].items():
+                if ftype == 'ManyToManyField':
+                    if kwargs.get('through'):
+                        continue
+
+                    target = kwargs['to']
+                    m2m_table = kwargs.get('db_table') or '%s_%s' % (table,
+                                                                     fname)
+
+                    if target in ('self', model_name):
+                        cols = ('from_%s_id' % model_name.lower(),
+                                'to_%s_id' % model_name.lower())
+                    else:
+                        cols = ('%s_id' % model_name.lower(),
+                                '%s_id' % target.lower())
+
+                    m2m.setdefault(m2m_table, []).append(OrderedDict([
+                        (cols[0], i + 1), (cols[1], count - i)]))
+                    continue
+
+                nullable = kwargs.get('null')
+                unique = kwargs.get('unique') or ftype == 'OneToOneField'
+
+                if nullable and i % null_every == 1:
+                    row[fname] = None
+                elif ftype in ('ForeignKey', 'OneToOneField'):
+                    row[fname] = i + 1
+                else:
+                    values = _TYPE_VALUES[ftype]
+                    value = values[i % len(values)]
+
+                    if unique and ftype in ('CharField', 'TextField'):
+                        value = '%s#%d' % (value[:4], i)
+                    elif unique and ftype == 'BooleanField':
+                        value = i % 2
+                    elif unique and ftype != 'DateTimeField':
+                        value = i + 1 if ftype != 'DecimalField' else i + 0.5
+
+                    if safe and not unique:
+                        # distinct, non-negative: never trips a unique or
+                        # ">= 0" check constraint of the start models
+                        if ftype in ('CharField', 'TextField'):
+                            value = '%d%s' % (i, value)
+                        elif ftype in ('IntegerField', 'BigIntegerField',
+                                       'PositiveIntegerField'):
+                            value = abs(value) % 1000 + 10 * (i + 1)
+                        elif ftype == 'DecimalField':
+                            value = round(abs(value) % 100 + 200 * i, 2)
+
+                    if ftype == 'CharField' and kwargs.get('max_length'):
+                        value = value[:kwargs['max_length']]
+
+                    row[fname] = value
+
+            table_rows.append(row)
+
+        rows[model_name] = table_rows
+
+    for table, links in m2m.items():
+        rows[table] = links
+
+    return rows
+
+
+_start_dump_cache = {}
+
+
+def start_dump(spec, rows):
+    """Raw rows of the freshly created + populated start tables (cached)."""
+    key = _canon([spec, rows])
+
+    if key not in _start_dump_cache:
+        if len(_start_dump_cache) > 200:
+            _start_dump_cache.clear()
+
+        data = H.fresh_schema(dec_spec(spec), rows=_dec_rows(rows),
+                              with_rows=True)
+        _start_dump_cache[key] = data
+
+    return _start_dump_cache[key]
+
+
+def _veq(a, b):
+    if a is None or b is None:
+        return a is None and b is None
+
+    num = (int, float, bool)
+
+    if isinstance(a, num) and isinstance(b, num):
+        return float(a) == float(b)
+
+    return type(a) == type(b) and a == b
+
+
+def _loose_eq(a, b):
+    if a is None or b is None:
+        return a is None and b is None
+
+    if _veq(a, b):
+        return True
+
+    try:
+        return float(a) == float(b)
+    except (TypeError, ValueError):
+        return str(a) == str(b)
+
+
+def _initial_value(initial):
+    """The value an ``initial`` description is expected to store."""
+    if isinstance(initial, dict) and '__callable__' in initial:
+        return initial.get('value')
+
+    if isinstance(initial, bool):
+        return int(initial)
+
+    return initial
+
+
+def _field_col(fname, finfo):
+    ftype = finfo['type'].rsplit('.', 1)[1]
+
+    if ftype == 'ManyToManyField':
+        return None
+
+    column = finfo['attrs'].get('db_column')
+
+    if column:
+        return column
+
+    if ftype in ('ForeignKey', 'OneToOneField'):
+        return fname + '_id'
+
+    return fname
+
+
+def _m2m_table(model_sig, fname, finfo):
+    return (finfo['attrs'].get('db_table') or
+            '%s_%s' % (model_sig['meta']['db_table'], fname))
+
+
+class RowTracker(object):
+    """Follows field identities through a mutation sequence (the oracle's
+    own, independent bookkeeping of what must survive)."""
+
+    def __init__(self, start_sig):
+        self.fields = {}     # (model, field) -> info
+        self.tables = {}     # model -> start table (identity of the model)
+        self.dropped = False
+
+        for model, msig in start_sig.items():
+            self.tables[model] = msig['meta']['db_table']
+
+            for fname, finfo in msig['fields'].items():
+                col = _field_col(fname, finfo)
+                self.fields[(model, fname)] = {
+                    'origin': ((msig['meta']['db_table'], col)
+                               if col else None),
+                    'm2m_origin': (_m2m_table(msig, fname, finfo)
+                                   if col is None else None),
+                    'added': False,
+                    'new_value': None,
+                    'nullfix': [],
+                    'typechanged': False,
+                    'nullable': bool(finfo['attrs'].get('null')),
+                }
+
+    def apply(self, desc):
+        kind = desc[0]
+
+        if kind == 'AddField':
+            kwargs = desc[4] or {}
+            is_m2m = desc[3] == 'ManyToManyField'
+            self.fields[(desc[1], desc[2])] = {
+                'origin': None, 'm2m_origin': None, 'added': True,
+                'is_m2m': is_m2m,
+                'new_value': _initial_value(kwargs.get('initial')),
+                'nullfix': [], 'typechanged': False,
+                'nullable': bool(kwargs.get('null')),
+            }
+        elif kind == 'ChangeField':
+            info = self.fields[(desc[1], desc[2])]
+            kwargs = desc[3] or {}
+
+            if 'field_type' in kwargs:
+                info['typechanged'] = True
+
+            if 'null' in kwargs:
+                if (kwargs['null'] is False and info['nullable'] and
+                    kwargs.get('initial') is not None):
+                    info['nullfix'].append(
+                        _initial_value(kwargs['initial']))
+
+                info['nullable'] = bool(kwargs['null'])
+        elif kind == 'DeleteField':
+            del self.fields[(desc[1], desc[2])]
+        elif kind == 'RenameField':
+            self.fields[(desc[1], desc[3])] = \
+                self.fields.pop((desc[1], desc[2]))
+        elif kind == 'RenameModel':
+            for (model, fname) in list(self.fields):
+                if model == desc[1]:
+                    self.fields[(desc[2], fname)] = \
+                        self.fields.pop((model, fname))
+
+            self.tables[desc[2]] = self.tables.pop(desc[1])
+        elif kind == 'DeleteModel':
+            for key in list(self.fields):
+                if key[0] == desc[1]:
+                    del self.fields[key]
+
+            self.tables.pop(desc[1], None)
+        elif kind == 'DeleteApplication':
+            self.fields.clear()
+            self.tables.clear()
+
+
+def check_rows(start_sig, final_sig, muts, start_rows, final_rows):
+    """Evaluate the C02 clauses.  Returns ``(failures, checked_cells)``.
+
+    ``start_rows`` / ``final_rows``: harness ``rows`` dumps.
+    """
+    tracker = RowTracker(start_sig)
+
+    for desc in muts:
+        tracker.apply(desc)
+
+    failures = []
+    checked = 0
+
+    def table_rows(dump, table):
+        data = dump.get(table)
+
+        if data is None:
+            return None
+
+        cols = data['columns']
+        result = OrderedDict()
+
+        for row in data['rows']:
+            item = dict(zip(cols, row))
+            result[item.get('id', len(result))] = item
+
+        return result
+
+    # -- surviving tables keep their rows ---------------------------------
+    for model, start_table in tracker.tables.items():
+        if model not in final_sig:
+            raise RuntimeError('tracker/signature mismatch: model %s'
+                               % model)
+
+        final_table = final_sig[model]['meta']['db_table']
+        before = table_rows(start_rows, start_table) or OrderedDict()
+        after = table_rows(final_rows, final_table)
+
+        if after is None:
+            failures.append(('row-count', {
+                'table': final_table, 'problem': 'table missing',
+                'model': model}))
+            continue
+
+        if list(before) != list(after):
+            failures.append(('row-count', {
+                'table': final_table, 'ids_before': list(before),
+                'ids_after': list(after)}))
+
+    # -- cell values --------------------------------------------------------
+    for (model, fname), info in sorted(tracker.fields.items()):
+        if model not in final_sig or fname not in final_sig[model]['fields']:
+            raise RuntimeError('tracker/signature mismatch: %s.%s'
+                               % (model, fname))
+
+        finfo = final_sig[model]['fields'][fname]
+        final_table = final_sig[model]['meta']['db_table']
+        col = _field_col(fname, finfo)
+
+        if col is None:
+            # many-to-many: the link rows must survive (column names may
+            # legitimately change, compare the value tuples).
+            if info.get('m2m_origin'):
+                final_m2m = _m2m_table(final_sig[model], fname, finfo)
+                before = start_rows.get(info['m2m_origin'])
+                after = final_rows.get(final_m2m)
+
+                if before is None:
+                    continue
+
+                checked += len(before['rows'])
+
+                if after is None:
+                    failures.append(('m2m-rows', {
+                        'field': '%s.%s' % (model, fname),
+                        'problem': 'table %s missing' % final_m2m,
+                        'tables': sorted(final_rows)}))
+                elif (sorted(map(list, before['rows'])) !=
+                      sorted(map(list, after['rows']))):
+                    failures.append(('m2m-rows', {
+                        'field': '%s.%s' % (model, fname),
+                        'before': before['rows'], 'after': after['rows']}))
+
+            continue
+
+        after = table_rows(final_rows, final_table)
+
+        if after is None:
+            continue   # reported as row-count above
+
+        start_table = tracker.tables[model]
+        before = table_rows(start_rows, start_table) or OrderedDict()
+
+        for row_id, old_row in before.items():
+            if row_id not in after:
+                continue   # reported as row-count
+
+            new_row = after[row_id]
+
+            if col not in new_row:
+                failures.append(('column-present', {
+                    'table': final_table, 'column': col,
+                    'columns': sorted(new_row)}))
+                break
+
+            actual = new_row[col]
+            checked += 1
+
+            if info['added']:
+                expected = info['new_value']
+                clause = 'added-column-initial'
+            else:
+                expected = old_row[info['origin'][1]]
+                clause = 'surviving-value-unchanged'
+
+            for fix in info['nullfix']:
+                if expected is None:
+                    expected = fix
+
+                    if not info['added']:
+                        clause = 'null-replaced-by-initial'
+
+            equal = (_loose_eq if info['typechanged'] else _veq)(actual,
+                                                                 expected)
+
+            if not equal:
+                failures.append((clause, {
+                    'table': final_table, 'column': col, 'row_id': row_id,
+                    'expected': expected, 'actual': actual,
+                    'field': '%s.%s' % (model, fname)}))
+                break
+
+    return failures, checked
+
+
+# ---------------------------------------------------------------------------
+# C01 - evolved schema equals the schema of freshly created models
+# ---------------------------------------------------------------------------
+
+_Z_MODEL = {'fields': OrderedDict([
+    ('z1', ['CharField', {'max_length': 8, 'unique': True}]),
+    ('z2', ['IntegerField', {'db_index': True}]),
+]), 'meta': {'unique_together': [['z1', 'z2']]}}
+
+
+def c01_base(rich):
+    """Start models of the C01 catalogue: P (target), T (evolved), Z."""
+    fields = OrderedDict([
+        ('c', ['CharField', {'max_length': 20}]),
+        ('i', ['IntegerField', {'null': True}]),
+        ('u', ['CharField', {'max_length': 10, 'unique': True}]),
+        ('x', ['IntegerField', {'db_index': True}]),
+    ])
+    meta = OrderedDict()
+
+    if rich:
+        fields['fk'] = ['ForeignKey', {'to': 'P', 'null': True}]
+        fields['m'] = ['ManyToManyField', {'to': 'P'}]
+        meta['unique_together'] = [['c', 'i']]
+        meta['index_together'] = [['c', 'x']]
+        meta['indexes'] = [
+            {'fields': ['i'], 'name': 'ix_i'},
+            {'fields': ['c'], 'name': 'ix_cond',
+             'condition': {'__Q__': {'i__gte': 1}}},
+        ]
+        meta['constraints'] = [
+            {'type': {'__cls__': 'UniqueConstraint'}, 'name': 'uq_xc',
+             'fields': ['x', 'c']},
+            {'type': {'__cls__': 'CheckConstraint'}, 'name': 'ck_i',
+             'check': {'__Q__': {'i__gte': 0}}},
+        ]
+
+    return OrderedDict([
+        ('P', {'fields': OrderedDict([
+            ('name', ['CharField', {'max_length': 20, 'unique': True}]),
+        ]), 'meta': {}}),
+        ('T', {'fields': fields, 'meta': meta}),
+        ('Z', copy.deepcopy(_Z_MODEL)),
+    ])
+
+
+_C01_TYPES = OrderedDict([
+    ('CharField', {'max_length': 10}),
+    ('TextField', {}),
+    ('IntegerField', {}),
+    ('BigIntegerField', {}),
+    ('PositiveIntegerField', {}),
+    ('BooleanField', {}),
+    ('DecimalField', {'max_digits': 6, 'decimal_places': 2}),
+    ('DateTimeField', {}),
+    ('ForeignKey', {'to': 'P'}),
+    ('OneToOneField', {'to': 'P'}),
+    ('ManyToManyField', {'to': 'P'}),
+])
+
+_C01_OPTIONS = [
+    {}, {'null': True}, {'db_index': True}, {'unique': True},
+    {'db_column': 'col_n'}, {'null': True, 'db_index': True},
+    {'null': True, 'unique': True},
+]
+
+
+def _field_variants(quick):
+    """(type, kwargs) for the field matrix."""
+    for ftype, base_kwargs in _C01_TYPES.items():
+        if ftype == 'ManyToManyField':
+            yield ftype, dict(base_kwargs)
+            yield ftype, dict(base_kwargs, db_table='custom_m2m')
+            continue
+
+        for option in _C01_OPTIONS:
+            if ftype == 'OneToOneField' and 'unique' in option:
+                continue
+
+            if ftype == 'TextField' and option.get('unique'):
+                pass
+
+            yield ftype, dict(base_kwargs, **option)
+
+
+def _add_desc(model, name, ftype, kwargs):
+    kwargs = dict(kwargs)
+    target = kwargs.pop('to', None)
+
+    if target:
+        kwargs['related_model'] = 'tests.%s' % target
+
+    if ftype != 'ManyToManyField' and not kwargs.get('null'):
+        kwargs['initial'] = _TYPE_INITIAL[ftype]
+
+    return ['AddField', model, name, ftype, kwargs]
+
+
+def _with_field(spec, model, name, ftype, kwargs):
+    spec = copy.deepcopy(spec)
+    spec[model]['fields'][name] = [ftype, dict(kwargs)]
+    return spec
+
+
+def _c01_catalogue(tier):
+    quick = tier == 'quick'
+    out = []
+
+    def add(family, spec, muts, **extra):
+        out.append(dict({'family': family, 'spec': spec,
+                         'rows': auto_rows(spec, 1, safe=True),
+                         'muts': muts,
+                         'bystanders': ['Z']}, **extra))
+
+    for rich in (False, True):
+        base = c01_base(rich)
+        tag = 'rich' if rich else 'plain'
+
+        # -- AddField / DeleteField / RenameField matrix --------------------
+        for ftype, kwargs in _field_variants(quick):
+            add('add-' + tag, base, [_add_desc('T', 'n', ftype, kwargs)])
+            with_n = _with_field(base, 'T', 'n', ftype, kwargs)
+            add('delete-' + tag, with_n, [['DeleteField', 'T', 'n']])
+
+            if ftype == 'ManyToManyField':
+                add('rename-' + tag, with_n,
+                    [['RenameField', 'T', 'n', 'renamed', {}]])
+                add('rename-' + tag, with_n,
+                    [['RenameField', 'T', 'n', 'renamed',
+                      {'db_table': 'other_m2m'}]])
+            else:
+                add('rename-' + tag, with_n,
+                    [['RenameField', 'T', 'n', 'renamed', {}]])
+
+                if not quick or not rich:
+                    add('rename-' + tag, with_n,
+                        [['RenameField', 'T', 'n', 'renamed',
+                          {'db_column': 'col_renamed'}]])
+
+        # -- ChangeField toggles ------------------------------------------
+        for ftype, base_kwargs in _C01_TYPES.items():
+            if ftype == 'ManyToManyField':
+                with_n = _with_field(base, 'T', 'n', ftype, base_kwargs)
+                add('change-' + tag, with_n,
+                    [['ChangeField', 'T', 'n', {'db_table': 'moved_m2m'}]])
+                continue
+
+            toggles = [
+                ({'null': True}, {'null': False,
+                                  'initial': _TYPE_INITIAL[ftype]}),
+                ({}, {'null': True}),
+                ({}, {'db_index': True}),
+                ({'db_index': True}, {'db_index': False}),
+                ({}, {'db_column': 'col_x'}),
+                ({'db_column': 'col_x'}, {'db_column': 'col_y'}),
+            ]
+
+            if ftype != 'OneToOneField':
+                toggles += [({}, {'unique': True}),
+                            ({'unique': True}, {'unique': False}),
+                            ({'db_index': True}, {'unique': True}),
+                            ({'unique': True, 'db_index': True},
+                             {'unique': False})]
+
+            if ftype == 'CharField':
+                toggles += [({}, {'max_length': 30}),
+                            ({}, {'max_length': 5}),
+                            ({'null': True},
+                             {'max_length': 30, 'null': False,
+                              'initial': 'both'})]
+            elif ftype == 'DecimalField':
+                toggles += [({}, {'max_digits': 9}),
+                            ({}, {'decimal_places': 1}),
+                            ({}, {'max_digits': 10, 'decimal_places': 4})]
+
+            for start_opt, change in toggles:
+                if quick and rich and ftype not in ('CharField',
+                                                    'IntegerField',
+                                                    'ForeignKey'):
+                    continue
+
+                with_n = _with_field(base, 'T', 'n', ftype,
+                                     dict(base_kwargs, **start_opt))
+                add('change-' + tag, with_n,
+                    [['ChangeField', 'T', 'n', change]])
+
+        # -- type changes -----------------------------------------------------
+        type_changes = [
+            ('CharField', {'max_length': 10}, 'TextField', {}),
+            ('TextField', {}, 'CharField', {'max_length': 40}),
+            ('IntegerField', {}, 'BigIntegerField', {}),
+            ('IntegerField', {}, 'CharField', {'max_length': 12}),
+            ('IntegerField', {'null': True}, 'PositiveIntegerField',
+             {'null': True}),
+            ('BooleanField', {}, 'IntegerField', {}),
+            ('DecimalField', {'max_digits': 6, 'decimal_places': 2},
+             'CharField', {'max_length': 20}),
+            ('CharField', {'max_length': 10, 'db_index': True},
+             'TextField', {'db_index': True}),
+        ]
+
+        for old_type, old_kwargs, new_type, new_kwargs in type_changes:
+            with_n = _with_field(base, 'T', 'n', old_type, old_kwargs)
+            add('type-' + tag, with_n,
+                [['ChangeField', 'T', 'n',
+                  dict(new_kwargs, field_type=new_type)]])
+
+    # -- ChangeMeta matrix ---------------------------------------------------
+    q_gte = {'__Q__': {'i__gte': 1}}
+    meta_values = {
+        'unique_together': [[], [['c', 'i']], [['c', 'i'], ['u', 'x']],
+                            [['i', 'c']], [['c', 'fk']]],
+        'index_together': [[], [['c', 'i']], [['c', 'i'], ['u', 'x']],
+                           [['x', 'c']]],
+        'indexes': [[], [{'fields': ['c'], 'name': 'ix_one'}],
+                    [{'fields': ['c', 'i'], 'name': 'ix_two'}],
+                    [{'fields': ['c'], 'name': 'ix_cond',
+                      'condition': q_gte}],
+                    [{'fields': ['c'], 'name': 'ix_one'},
+                     {'fields': ['x'], 'name': 'ix_cond',
+                      'condition': q_gte}],
+                    [{'fields': ['c']}]],
+        'constraints': [[],
+                        [{'type': {'__cls__': 'UniqueConstraint'},
+                          'name': 'uq_one', 'fields': ['c', 'x']}],
+                        [{'type': {'__cls__': 'UniqueConstraint'},
+                          'name': 'uq_cond', 'fields': ['c'],
+                          'condition': q_gte}],
+                        [{'type': {'__cls__': 'CheckConstraint'},
+                          'name': 'ck_one', 'check': {'__Q__':
+                                                      {'x__gte': 0}}}],
+                        [{'type': {'__cls__': 'UniqueConstraint'},
+                          'name': 'uq_one', 'fields': ['c', 'x']},
+                         {'type': {'__cls__': 'CheckConstraint'},
+                          'name': 'ck_one', 'check': {'__Q__':
+                                                      {'x__gte': 0}}}]],
+    }
+
+    for others in (False, True):
+        for prop, values in meta_values.items():
+            for old, new in itertools.permutations(values, 2):
+                base = c01_base(False)
+                base['T']['fields']['fk'] = ['ForeignKey',
+                                             {'to': 'P', 'null': True}]
+
+                if others:
+                    # every OTHER Meta option is set as well
+                    for other_prop, other_values in meta_values.items():
+                        if other_prop != prop:
+                            base['T']['meta'][other_prop] = \
+                                copy.deepcopy(other_values[1])
+
+                if old:
+                    base['T']['meta'][prop] = copy.deepcopy(old)
+
+                add('meta-%s-%s' % (prop, 'others' if others else 'alone'),
+                    base, [['ChangeMeta', 'T', prop, copy.deepcopy(new)]])
+
+    # -- model level -----------------------------------------------------------
+    for rich in (False, True):
+        base = c01_base(rich)
+        tag = 'rich' if rich else 'plain'
+        add('model-' + tag, base, [['RenameModel', 'T', 'T2', 'tests_t2']])
+        add('model-' + tag, base, [['RenameModel', 'T', 'T2', 'tests_t']])
+        add('model-' + tag, base, [['RenameModel', 'T', 'T2', 'custom_t']])
+        add('model-' + tag, base, [['RenameModel', 'P', 'P2', 'tests_p2']])
+        add('model-' + tag, base, [['RenameModel', 'P', 'P2', 'tests_p']])
+        add('model-' + tag, base, [['DeleteModel', 'T']])
+        add('model-' + tag, base, [['DeleteModel', 'T'],
+                                   ['DeleteModel', 'P']])
+        add('model-' + tag, base, [['DeleteApplication']], bystanders=[])
+
+        custom = copy.deepcopy(base)
+        custom['T']['meta']['db_table'] = 'my_t'
+        add('model-' + tag, custom, [['RenameModel', 'T', 'T2', 'my_t']])
+        add('model-' + tag, custom, [['RenameModel', 'T', 'T2', 'tests_t2']])
+        add('model-' + tag, custom,
+            [_add_desc('T', 'n', 'IntegerField', {})])
+
+        o2o = _with_field(base, 'T', 'one', 'OneToOneField',
+                          {'to': 'P', 'null': True})
+        add('model-' + tag, o2o, [['RenameModel', 'P', 'P2', 'tests_p2']])
+        add('model-' + tag, o2o, [['RenameModel', 'T', 'T2', 'tests_t2']])
+
+    return out
+
+
+def _c01_hinted(tier):
+    """(start, target) pairs; the mutations come from the library's Diff."""
+    base = c01_base(False)
+    variants = OrderedDict()
+    variants['base'] = base
+
+    def variant(name, fn):
+        spec = copy.deepcopy(base)
+        fn(spec['T'])
+        variants[name] = spec
+
+    variant('plus-int', lambda t: t['fields'].__setitem__(
+        'n', ['IntegerField', {'null': True}]))
+    variant('plus-char-default', lambda t: t['fields'].__setitem__(
+        'n', ['CharField', {'max_length': 12, 'default': 'dflt'}]))
+    variant('plus-fk', lambda t: t['fields'].__setitem__(
+        'n', ['ForeignKey', {'to': 'P', 'null': True}]))
+    variant('plus-m2m', lambda t: t['fields'].__setitem__(
+        'n', ['ManyToManyField', {'to': 'P'}]))
+    variant('minus-i', lambda t: t['fields'].pop('i'))
+    variant('i-notnull', lambda t: t['fields'].__setitem__(
+        'i', ['IntegerField', {}]))
+    variant('c-indexed', lambda t: t['fields'].__setitem__(
+        'c', ['CharField', {'max_length': 20, 'db_index': True}]))
+    variant('c-unique-longer', lambda t: t['fields'].__setitem__(
+        'c', ['CharField', {'max_length': 40, 'unique': True}]))
+    variant('u-plain', lambda t: t['fields'].__setitem__(
+        'u', ['CharField', {'max_length': 10}]))
+    variant('x-plain-col', lambda t: t['fields'].__setitem__(
+        'x', ['IntegerField', {'db_column': 'x_col'}]))
+    variant('c-text', lambda t: t['fields'].__setitem__(
+        'c', ['TextField', {}]))
+    variant('ut', lambda t: t['meta'].__setitem__(
+        'unique_together', [['c', 'i']]))
+    variant('it-ix', lambda t: t['meta'].update(
+        index_together=[['c', 'x']],
+        indexes=[{'fields': ['i'], 'name': 'ix_i'}]))
+    variant('constraints', lambda t: t['meta'].__setitem__(
+        'constraints', [
+            {'type': {'__cls__': 'UniqueConstraint'}, 'name': 'uq_xc',
+             'fields': ['x', 'c']},
+            {'type': {'__cls__': 'CheckConstraint'}, 'name': 'ck_x',
+             'check': {'__Q__': {'x__gte': 0}}}]))
+    variant('no-T', lambda t: None)
+    del variants['no-T']['T']
+
+    names = list(variants)
+    out = []
+
+    for a, b in itertools.permutations(names, 2):
+        if a == 'no-T':
+            continue   # creating models is not an evolution
+
+        out.append({'family': 'hinted', 'spec': variants[a],
+                    'rows': auto_rows(variants[a], 1, safe=True),
+                    'target': variants[b], 'pair': [a, b],
+                    'muts': None, 'bystanders': ['Z']})
+
+    return out
+
+
+def hinted_mutations(spec, target):
+    """The library's own hinted evolution from spec to target, as descs.
+
+    Placeholder initial values (``<<USER VALUE REQUIRED>>``) are replaced
+    by a value fitting the field type, as a developer would.
+    """
+    _setup()
+
+    from django_evolution.diff import Diff
+    from django_evolution.placeholders import BasePlaceholder
+
+    try:
+        with warnings.catch_warnings():
+            warnings.simplefilter('ignore')
+            start_map = H.build_models(dec_spec(spec))
+            start_sig = _orig_project_sig_fn[0](start_map)
+            end_map = H.build_models(dec_spec(target))
+            end_sig = _orig_project_sig_fn[0](end_map)
+            diff = Diff(start_sig, end_sig)
+            mutations = diff.evolution().get(H.APP_LABEL, [])
+            descs = []
+
+            for mutation in mutations:
+                initial = getattr(mutation, 'initial', None)
+
+                if isinstance(initial, BasePlaceholder):
+                    field_type = getattr(mutation, 'field_type', None)
+
+                    if field_type is None:
+                        field_type = (
+                            end_sig.get_app_sig(H.APP_LABEL)
+                            .get_model_sig(mutation.model_name)
+                            .get_field_sig(mutation.field_name).field_type)
+
+                    mutation.initial = _TYPE_INITIAL.get(
+                        field_type.__name__, 1)
+
+                descs.append(desc_of(mutation))
+
+            return descs
+    finally:
+        H._purge_registry()
+
+
+def _is_crash(error):
+    """An internal error (not a legitimate rejection, not a data error)."""
+    return error is not None and error['phase'] in ('simulate', 'sql') and \
+        not _is_rejection(error)
+
+
+def eval_C01(sc):
+    spec, rows = sc['spec'], sc.get('rows')
+    out = {'nontrivial': False, 'skipped': None, 'failures': [],
+           'summary': {}}
+    failures = out['failures']
+    target = sc.get('target')
+    muts = sc.get('muts')
+
+    if muts is None:
+        muts = hinted_mutations(spec, target)
+        out['summary']['hinted_muts'] = muts
+
+        if not muts:
+            out['skipped'] = 'empty-hint'
+            return out
+
+        if any(m[0].startswith('<') or '__repr__' in _canon(m)
+               for m in muts):
+            out['skipped'] = 'hint-not-representable'
+            return out
+
+    ok, error = sim_valid(spec, muts)
+
+    if not ok:
+        out['skipped'] = 'simulation-invalid:%s' % error['class']
+        return out
+
+    groups = [muts] if sc.get('batched', True) else [[m] for m in muts]
+    result = run(spec, groups, rows, end_spec=target)
+    error = result['error']
+
+    if error is not None:
+        if error['phase'] == 'setup':
+            out['skipped'] = 'setup-error:%s' % error['message'][:80]
+            return out
+
+        if _is_rejection(error):
+            out['skipped'] = 'rejected:%s' % error['class']
+            return out
+
+        out['nontrivial'] = True
+
+        if error['phase'] == 'execute':
+            failures.append(('sql-executes', {'error': _err_brief(error),
+                                              'muts': muts}))
+        else:
+            failures.append(('accepted-evolution-crashes', {
+                'error': _err_brief(error), 'muts': muts}))
+
+        return out
+
+    out['nontrivial'] = True
+
+    # -- the evolved models, created from scratch ---------------------------
+    try:
+        if target is not None:
+            expected = H.fresh_schema(dec_spec(target))
+        else:
+            expected = fresh_schema_of_sig(result['project_sig'])
+    except Exception as e:
+        out['skipped'] = 'evolved-models-not-creatable:%s' % (
+            '%s: %s' % (type(e).__name__, e))[:120]
+        out['nontrivial'] = False
+        return out
+
+    bystander_tables = set()
+
+    for name in sc.get('bystanders') or []:
+        if name in spec:
+            bystander_tables.add((spec[name].get('meta') or {}).get(
+                'db_table', 'tests_%s' % name.lower()))
+
+    diff = schema_diff(result['schema'], expected)
+
+    if diff:
+        failures.append(('schema-equals-fresh', dict(
+            {'diff': diff, 'muts': muts},
+            **explain_schema_diff(diff, result['final_sig'],
+                                  list(result['rebuilds'])))))
+
+    if target is not None and result['sig_matches_end'] is not True:
+        failures.append(('hinted-signature-reaches-target', {
+            'sig_diff': result['sig_diff'], 'muts': muts}))
+
+    # -- untouched tables ----------------------------------------------------
+    for table in sorted(bystander_tables):
+        before = result['start_schema'].get(table)
+        after = result['schema'].get(table)
+
+        def essence(info):
+            return info and {'create_sql': info['create_sql'],
+                             'index_sql': sorted(info['index_sql']),
+                             'columns': info['columns']}
+
+        if essence(before) != essence(after):
+            failures.append(('bystander-untouched', {
+                'table': table, 'before': essence(before),
+                'after': essence(after)}))
+
+    out['summary'].update({
+        'family': sc.get('family'),
+        'rebuilds': dict(result['rebuilds']),
+        'failed_clauses': sorted(set(c for c, _o in failures)),
+    })
+
+    return out
+
+
+_EVALS['C01'] = eval_C01
+
+KNOWN_C01 = []
+
+RULE_C01 = (
+    'Catalogue over start models P(name unique) <- T(c char, i int null, '
+    'u char unique, x int db_index [, fk->P, m2m->P, unique_together, '
+    'index_together, Meta.indexes incl. a condition, Unique+Check '
+    'constraints]) + bystander Z, one row per table: AddField / '
+    'DeleteField / RenameField(+db_column/db_table) for 11 field types x '
+    '7 option sets, ChangeField toggles (null, db_index, unique, '
+    'db_column, max_length, max_digits/decimal_places, m2m db_table) and '
+    'type changes, all ordered (old,new) pairs of 4-6 values for each of '
+    'unique_together/index_together/indexes/constraints alone and with the '
+    'other Meta options set, RenameModel (new/same/custom db_table, with '
+    'inbound and outbound FK/O2O/M2M), DeleteModel, DeleteApplication; '
+    'hinted evolutions (library Diff) for all ordered pairs of 16 model '
+    'variants; plus sequences of the C03 space run as one batch.  Expected '
+    'schema = tables created by Django for models rebuilt from the final '
+    'signature (hinted: for the target models); compared per table: '
+    'columns {name: type, notnull, pk}, multiset of (unique, columns) '
+    'indexes, partial index conditions, CHECK clauses, foreign keys.  '
+    'Skipped: rejected by simulation / EvolutionNotImplementedError, or '
+    'evolved models Django itself refuses to create.  Non-trivial = the '
+    'evolution was accepted and produced SQL that was executed.'
+)
+
+
+def _c01_scenarios(tier, seed):
+    rng = random.Random(seed)
+    scenarios = _c01_catalogue(tier) + _c01_hinted(tier)
+    groups = ['catalogue+hinted: %d' % len(scenarios)]
+
+    if tier == 'quick':
+        seqs = [s for s in enum_sequences(SEQ_SPEC, 'core', 2)
+                if len(s) == 2]
+        seqs = rng.sample(seqs, 150)
+        groups.append('sample of core len 2 sequences: %d' % len(seqs))
+    else:
+        seqs = enum_sequences(SEQ_SPEC, 'core', 2)
+        full = enum_sequences(SEQ_SPEC, 'full', 2)
+        groups.append('exhaustive core<=2: %d, full<=2: %d'
+                      % (len(seqs), len(full)))
+        seqs = seqs + full
+        more = [random_sequence(SEQ_SPEC, 'full', rng.randint(3, 8), rng)
+                for _i in range(1500)]
+        groups.append('random full len 3-8: %d' % len(more))
+        seqs = _dedup(seqs + more)
+
+    rows1 = OrderedDict((name, table_rows[:1])
+                        for name, table_rows in SEQ_ROWS.items())
+
+    for seq in seqs:
+        scenarios.append({'family': 'sequence', 'spec': SEQ_SPEC,
+                          'rows': rows1, 'muts': seq, 'bystanders': ['Z']})
+
+        if tier != 'quick' and len(seq) >= 2:
+            scenarios.append({'family': 'sequence-unbatched',
+                              'spec': SEQ_SPEC, 'rows': rows1, 'muts': seq,
+                              'bystanders': ['Z'], 'batched': False})
+
+    return scenarios, groups
+
+
+def suite_C01(tier='quick', seed=0):
+    t0 = time.time()
+    _setup()
+    scenarios, groups = _c01_scenarios(tier, seed)
+
+    return _collect('C01', scenarios, KNOWN_C01,
+                    RULE_C01 + '  Scope: ' + '; '.join(groups), True, t0,
+                    budget=55 if tier == 'quick' else 14 * 60)
+
+
+def replay_C01(inputs):
+    _setup()
+    out = _eval_task(('C01', inputs))
+
+    return {'reproduced': bool(out['failures']),
+            'clauses': sorted(set(c for c, _o in out['failures'])),
+            'failures': H.to_jsonable(out['failures']),
+            'skipped': out.get('skipped'),
+            'internal_error': out.get('internal_error')}
+
+
+# ---------------------------------------------------------------------------
+# C02 - evolutions preserve existing row data
+# ---------------------------------------------------------------------------
+
+#: All nullable: any subset/order of null->not-null changes is possible.
+INIT_SPEC = OrderedDict([
+    ('T', {'fields': OrderedDict([
+        ('f1', ['CharField', {'max_length': 20, 'null': True}]),
+        ('f2', ['IntegerField', {'null': True}]),
+        ('f3', ['CharField', {'max_length': 20, 'null': True}]),
+        ('keep', ['CharField', {'max_length': 20}]),
+    ]), 'meta': {}}),
+    ('Z', copy.deepcopy(_Z_MODEL)),
+])
+
+_INIT_ALPHABET = [
+    ['ChangeField', 'T', 'f1', {'null': False, 'initial': "F1'init"}],
+    ['ChangeField', 'T', 'f2', {'null': False, 'initial': 222}],
+    ['ChangeField', 'T', 'f3', {'null': False, 'initial': 'F3 50%'}],
+    ['AddField', 'T', 'n1', 'CharField', {'max_length': 20,
+                                          'initial': 'N1"init'}],
+    ['AddField', 'T', 'n2', 'IntegerField', {'initial': -999}],
+    ['AddField', 'T', 'n3', 'CharField', {'max_length': 20, 'null': True}],
+    ['AddField', 'T', 'n4', 'CharField',
+     {'max_length': 20, 'initial': {'__callable__': "'sql' || 'expr'",
+                                    'value': 'sqlexpr'}}],
+    ['AddField', 'T', 'n5', 'BooleanField', {'initial': False}],
+    ['AddField', 'T', 'n6', 'CharField', {'max_length': 20, 'initial': ''}],
+]
+
+
+def _init_rows(count):
+    rows = []
+    f1 = ['one', None, '', "q'uote", None, '100%']
+    f2 = [1, None, 0, None, -2147483648, 2147483647]
+    f3 = [None, 'three', None, '%s', 'x"y', None]
+
+    for i in range(count):
+        rows.append({'f1': f1[i % 6], 'f2': f2[i % 6], 'f3': f3[i % 6],
+                     'keep': 'keep-%d' % i})
+
+    return OrderedDict([('T', rows),
+                        ('Z', [{'z1': 'zz', 'z2': 5}] if count else [])])
+
+
+#: Every scalar field type with boundary values.
+TYPES_SPEC = OrderedDict([
+    ('P', {'fields': OrderedDict([
+        ('name', ['CharField', {'max_length': 20}]),
+    ]), 'meta': {}}),
+    ('W', {'fields': OrderedDict([
+        ('ch', ['CharField', {'max_length': 30}]),
+        ('tx', ['TextField', {'null': True}]),
+        ('it', ['IntegerField', {'null': True}]),
+        ('bi', ['BigIntegerField', {}]),
+        ('po', ['PositiveIntegerField', {}]),
+        ('bo', ['BooleanField', {}]),
+        ('de', ['DecimalField', {'max_digits': 8, 'decimal_places': 2,
+                                 'null': True}]),
+        ('dt', ['DateTimeField', {'null': True}]),
+        ('fk', ['ForeignKey', {'to': 'P', 'null': True}]),
+        ('mm', ['ManyToManyField', {'to': 'P'}]),
+    ]), 'meta': {}}),
+    ('Z', copy.deepcopy(_Z_MODEL)),
+])
+
+_TYPES_MUTS = [
+    [['AddField', 'W', 'n', 'IntegerField', {'initial': 11}]],
+    [['AddField', 'W', 'n', 'CharField', {'max_length': 9, 'null': True}]],
+    [['AddField', 'W', 'n', 'ForeignKey',
+      {'null': True, 'related_model': 'tests.P'}]],
+    [['AddField', 'W', 'n', 'ManyToManyField',
+      {'related_model': 'tests.P'}]],
+    [['DeleteField', 'W', 'ch']],
+    [['DeleteField', 'W', 'fk']],
+    [['DeleteField', 'W', 'mm']],
+    [['ChangeField', 'W', 'tx', {'null': False, 'initial': "t'%x"}]],
+    [['ChangeField', 'W', 'it', {'null': False, 'initial': 0}]],
+    [['ChangeField', 'W', 'de', {'null': False, 'initial': 1.25}]],
+    [['ChangeField', 'W', 'dt', {'null': False,
+                                 'initial': '2001-02-03 04:05:06'}]],
+    [['ChangeField', 'W', 'ch', {'max_length': 5}]],
+    [['ChangeField', 'W', 'ch', {'max_length': 50, 'db_index': True}]],
+    [['ChangeField', 'W', 'ch', {'unique': True}]],
+    [['ChangeField', 'W', 'bi', {'db_column': 'big_col'}]],
+    [['ChangeField', 'W', 'de', {'max_digits': 12, 'decimal_places': 4}]],
+    [['ChangeField', 'W', 'it', {'field_type': 'BigIntegerField',
+                                 'null': True}]],
+    [['ChangeField', 'W', 'ch', {'field_type': 'TextField'}]],
+    [['RenameField', 'W', 'ch', 'ch2', {}]],
+    [['RenameField', 'W', 'bi', 'bi2', {'db_column': 'bi_col'}]],
+    [['RenameField', 'W', 'fk', 'parent', {}]],
+    [['RenameField', 'W', 'mm', 'links', {}]],
+    [['RenameField', 'W', 'mm', 'links', {'db_table': 'w_links'}]],
+    [['ChangeField', 'W', 'mm', {'db_table': 'w_moved'}]],
+    [['ChangeMeta', 'W', 'unique_together', [['ch', 'bi']]]],
+    [['ChangeMeta', 'W', 'indexes', [{'fields': ['it'], 'name': 'w_ix'}]]],
+    [['ChangeMeta', 'W', 'constraints',
+      [{'type': {'__cls__': 'CheckConstraint'}, 'name': 'w_ck',
+        'check': {'__Q__': {'po__gte': 0}}}]]],
+    [['RenameModel', 'W', 'W2', 'tests_w2']],
+    [['RenameModel', 'W', 'W2', 'tests_w']],
+    [['RenameModel', 'P', 'P2', 'tests_p2']],
+    [['DeleteModel', 'Z']],
+    [['RenameModel', 'W', 'W2', 'tests_w2'],
+     ['AddField', 'W2', 'n', 'IntegerField', {'initial': 11}]],
+    [['RenameField', 'W', 'ch', 'ch2', {}],
+     ['ChangeField', 'W', 'ch2', {'max_length': 40}],
+     ['DeleteField', 'W', 'tx']],
+    [['AddField', 'W', 'n', 'IntegerField', {'null': True}],
+     ['ChangeField', 'W', 'n', {'null': False, 'initial': 77}]],
+]
+
+
+def eval_C02(sc):
+    spec, rows, muts = sc['spec'], sc.get('rows'), sc['muts']
+    out = {'nontrivial': False, 'skipped': None, 'failures': [],
+           'summary': {}}
+
+    ok, error = sim_valid(spec, muts)
+
+    if not ok:
+        out['skipped'] = 'simulation-invalid:%s' % error['class']
+        return out
+
+    groups = [muts] if sc.get('batched', True) else [[m] for m in muts]
+    result = run(spec, groups, rows)
+    error = result['error']
+
+    if error is not None:
+        # Rejections, crashes and failing SQL are C01/C03 matters; nothing
+        # was evolved, so there is nothing to compare.
+        out['skipped'] = 'not-evolved:%s:%s' % (error['phase'],
+                                                error['class'])
+        return out
+
+    start = start_dump(spec, rows)
+    failures, checked = check_rows(result['start_sig'], result['final_sig'],
+                                   muts, start['rows'], result['rows'])
+    out['nontrivial'] = checked > 0
+
+    context = {
+        'sql': [s for g in result['sql'] for s in g
+                if isinstance(s, str) and
+                (s.startswith('INSERT INTO') or s.startswith('UPDATE'))][:6],
+        'batched': sc.get('batched', True),
+    }
+
+    for clause, observed in failures:
+        out['failures'].append((clause, dict(observed, **context)))
+
+    out['summary'] = {
+        'family': sc.get('family'),
+        'cells_checked': checked,
+        'rebuilds': dict(result['rebuilds']),
+        'failed_clauses': sorted(set(c for c, _o in failures)),
+    }
+
+    return out
+
+
+_EVALS['C02'] = eval_C02
+
+KNOWN_C02 = []
+
+RULE_C02 = (
+    'Families: (init) model T(f1 char null, f2 int null, f3 char null, '
+    'keep) with 0/1/6 rows incl. NULLs, empty strings, quotes, percent '
+    'signs, INT_MIN/INT_MAX: ALL ordered selections of 1-3 (thorough: '
+    '1-4) mutations out of 9 [3x ChangeField(null=False, initial), 6x '
+    'AddField(initial str/int/bool/empty/callable/NULL)], as one batch and '
+    'one at a time; (types) model W with Char/Text/Integer/BigInteger/'
+    'PositiveInteger/Boolean/Decimal/DateTime/FK/M2M columns, 6 boundary '
+    'rows, 34 rebuild/rename/type-change/RenameModel scenarios; (rich) '
+    'the C01 rich model with 4 rows under every catalogue mutation; '
+    '(sequence) sequences of the C03 space with 3+2+2 rows.  The oracle '
+    'tracks every field identity through the mutations on its own '
+    '(RowTracker) and compares raw SQLite values per primary key: '
+    'surviving-value-unchanged, row-count, m2m-rows, added-column-initial, '
+    'null-replaced-by-initial.  Scenarios the library rejects or whose SQL '
+    'fails are skipped.  Non-trivial = at least one pre-existing cell was '
+    'compared.'
+)
+
+
+def _c02_scenarios(tier, seed):
+    rng = random.Random(seed)
+    quick = tier == 'quick'
+    scenarios = []
+    groups = []
+
+    # -- init family -----------------------------------------------------------
+    max_k = 3 if quick else 4
+    count = 0
+
+    for k in range(1, max_k + 1):
+        perms = list(itertools.permutations(range(len(_INIT_ALPHABET)), k))
+
+        if quick and k == 3:
+            # All orderings of every 3-subset that has >= 2 parameterised
+            # initial values would be 504; keep those touching >= 1
+            # ChangeField and >= 1 AddField (the order-sensitive ones).
+            perms = [p for p in perms
+                     if any(i < 3 for i in p) and any(i >= 3 for i in p)]
+            perms = rng.sample(perms, 220)
+        elif k == 4:
+            perms = rng.sample(perms, 1200)
+
+        for perm in perms:
+            muts = [copy.deepcopy(_INIT_ALPHABET[i]) for i in perm]
+            row_counts = [6] if (quick and k == 3) else [6, 1] \
+                if quick else [6, 1, 0]
+
+            for n in row_counts:
+                scenarios.append({'family': 'init', 'spec': INIT_SPEC,
+                                  'rows': _init_rows(n), 'muts': muts})
+                count += 1
+
+            if k >= 2 and (not quick or k == 2):
+                scenarios.append({'family': 'init-unbatched',
+                                  'spec': INIT_SPEC, 'rows': _init_rows(6),
+                                  'muts': muts, 'batched': False})
+                count += 1
+
+    groups.append('init: %d' % count)
+
+    # -- types family ----------------------------------------------------------
+    type_rows = auto_rows(TYPES_SPEC, 6)
+
+    for muts in _TYPES_MUTS:
+        scenarios.append({'family': 'types', 'spec': TYPES_SPEC,
+                          'rows': type_rows, 'muts': copy.deepcopy(muts)})
+
+        if len(muts) > 1:
+            scenarios.append({'family': 'types', 'spec': TYPES_SPEC,
+                              'rows': type_rows,
+                              'muts': copy.deepcopy(muts),
+                              'batched': False})
+
+    groups.append('types: %d' % len(_TYPES_MUTS))
+
+    # -- the C01 catalogue on the rich model with 4 rows -----------------------
+    count = 0
+
+    for sc in _c01_catalogue(tier):
+        if sc['family'].endswith('-plain') and quick:
+            continue
+
+        if sc['family'].startswith('meta-') and quick and count % 3:
+            count += 1
+            continue
+
+        scenarios.append({'family': 'catalogue:' + sc['family'],
+                          'spec': sc['spec'],
+                          'rows': auto_rows(sc['spec'], 4, safe=True),
+                          'muts': sc['muts']})
+        count += 1
+
+    groups.append('catalogue with rows: %d' % count)
+
+    # -- sequences -----------------------------------------------------------
+    if quick:
+        seqs = [s for s in enum_sequences(SEQ_SPEC, 'core', 2)]
+        seqs = rng.sample(seqs, 250)
+        seqs += [random_sequence(SEQ_SPEC, 'full', rng.randint(3, 8), rng)
+                 for _i in range(80)]
+    else:
+        seqs = enum_sequences(SEQ_SPEC, 'core', 2)
+        seqs += rng.sample(enum_sequences(SEQ_SPEC, 'core', 3), 2500)
+        seqs += enum_sequences(SEQ_SPEC, 'full', 2)
+        seqs += [random_sequence(SEQ_SPEC, 'full', rng.randint(3, 12), rng)
+                 for _i in range(2500)]
+
+    seqs = _dedup(seqs)
+    groups.append('sequences: %d' % len(seqs))
+
+    for i, seq in enumerate(seqs):
+        scenarios.append({'family': 'sequence', 'spec': SEQ_SPEC,
+                          'rows': SEQ_ROWS, 'muts': seq})
+
+        if len(seq) >= 2 and (not quick or i % 3 == 0):
+            scenarios.append({'family': 'sequence-unbatched',
+                              'spec': SEQ_SPEC, 'rows': SEQ_ROWS,
+                              'muts': seq, 'batched': False})
+
+    return scenarios, groups
+
+
+def suite_C02(tier='quick', seed=0):
+    t0 = time.time()
+    _setup()
+    scenarios, groups = _c02_scenarios(tier, seed)
+
+    return _collect('C02', scenarios, KNOWN_C02,
+                    RULE_C02 + '  Scope: ' + '; '.join(groups),
+                    True, t0, budget=55 if tier == 'quick' else 14 * 60)
+
+
+def replay_C02(inputs):
+    _setup()
+    out = _eval_task(('C02', inputs))
+
+    return {'reproduced': bool(out['failures']),
+            'clauses': sorted(set(c for c, _o in out['failures'])),
+            'failures': H.to_jsonable(out['failures']),
+            'skipped': out.get('skipped'),
+            'internal_error': out.get('internal_error')}
+
+
+# ---------------------------------------------------------------------------
+# C18 - batched changes rewrite each table once, never more than unbatched
+# ---------------------------------------------------------------------------
+
+def _table_identities(spec, muts):
+    """Map every table name a model's table ever has to one identity."""
+    state = SeqState(spec, protected=())
+    ident = {}
+
+    for name, info in state.models.items():
+        ident[info['table']] = info['table']
+
+    for desc in muts:
+        if desc[0] == 'RenameModel' and desc[1] in state.models:
+            old_table = state.models[desc[1]]['table']
+            ident.setdefault(desc[3], ident.get(old_table, old_table))
+
+        try:
+            state.apply(desc)
+        except Exception:
+            break
+
+    return ident
+
+
+def _by_identity(rebuilds, ident):
+    result = {}
+
+    for table, count in rebuilds.items():
+        key = ident.get(table, table)
+        result[key] = result.get(key, 0) + count
+
+    return result
+
+
+_MERGEABLE_KINDS = ('AddField', 'DeleteField', 'ChangeField', 'ChangeMeta')
+
+
+def _is_mergeable(desc):
+    if desc[0] not in _MERGEABLE_KINDS:
+        return False
+
+    if desc[0] == 'ChangeField' and ('field_type' in desc[3] or
+                                     'db_column' in desc[3]):
+        # type changes and column renames are excluded by the property
+        return False
+
+    return True
+
+
+def single_run_models(spec, muts):
+    """Models (by start table) whose mutations form ONE run of mergeable
+    mutations: all of the model's mutations are consecutive and mergeable,
+    and no mutation elsewhere in the sequence is a model level one."""
+    if any(desc[0] in ('RenameModel', 'DeleteModel', 'DeleteApplication')
+           for desc in muts):
+        return {}
+
+    positions = {}
+
+    for index, desc in enumerate(muts):
+        if desc[0] == 'SQLMutation':
+            continue
+
+        positions.setdefault(desc[1], []).append(index)
+
+    state = SeqState(spec, protected=())
+    result = {}
+
+    for model, indexes in positions.items():
+        if model not in state.models:
+            continue
+
+        if indexes[-1] - indexes[0] + 1 != len(indexes):
+            continue
+
+        if all(_is_mergeable(muts[i]) for i in indexes) and len(indexes) > 1:
+            result[model] = state.models[model]['table']
+
+    return result
+
+
+def eval_C18(sc):
+    spec, rows, muts = sc['spec'], sc.get('rows'), sc['muts']
+    out = {'nontrivial': False, 'skipped': None, 'failures': [],
+           'summary': {}}
+
+    ok, error = sim_valid(spec, muts)
+
+    if not ok:
+        out['skipped'] = 'simulation-invalid'
+        return out
+
+    single = run(spec, [[m] for m in muts], rows)
+
+    if single['error'] is not None:
+        out['skipped'] = 'one-at-a-time-rejected:%s' % single['error']['class']
+        return out
+
+    batched = run(spec, [muts], rows)
+
+    if batched['error'] is not None:
+        out['skipped'] = 'optimised-run-rejected:%s' % \
+            batched['error']['class']
+        return out
+
+    ident = _table_identities(spec, muts)
+    single_counts = _by_identity(single['rebuilds'], ident)
+    runs = {'AppMutator': _by_identity(batched['rebuilds'], ident)}
+
+    if sc.get('evolver', True) and len(muts) >= 2:
+        # every mutation in its own evolution ("however many evolutions")
+        ev = run_evolver(spec, _split_evolutions(muts, len(muts)), rows)
+
+        if ev['error'] is None:
+            runs['Evolver(%d evolutions)' % len(muts)] = \
+                _by_identity(ev['rebuilds'], ident)
+
+    out['nontrivial'] = len(muts) >= 2 and sum(single_counts.values()) >= 1
+    one_run = single_run_models(spec, muts)
+
+    for how, counts in runs.items():
+        for table, count in sorted(counts.items(), key=repr):
+            if count > single_counts.get(table, 0):
+                out['failures'].append(('no-more-than-unbatched', {
+                    'how': how, 'table': table, 'optimised': count,
+                    'one_at_a_time': single_counts.get(table, 0)}))
+
+        for model, table in sorted(one_run.items()):
+            if counts.get(table, 0) > 1:
+                out['failures'].append(('mergeable-run-single-rewrite', {
+                    'how': how, 'model': model, 'table': table,
+                    'rewrites': counts.get(table, 0),
+                    'one_at_a_time': single_counts.get(table, 0)}))
+
+    out['summary'] = {
+        'one_at_a_time': single_counts,
+        'optimised': runs,
+        'single_run_models': sorted(one_run),
+        'failed_clauses': sorted(set(c for c, _o in out['failures'])),
+    }
+
+    return out
+
+
+_EVALS['C18'] = eval_C18
+
+KNOWN_C18 = []
+
+RULE_C18 = (
+    'The C03 sequence space (see suite_C03).  Each sequence is run one '
+    'mutation per AppMutator (rescan between), all in one AppMutator, and '
+    'through Evolver+EvolveAppTask with every mutation in its own '
+    'evolution; rewrites are counted per table on the executed statement '
+    'trace (CREATE TABLE "TEMP_TABLE" ... RENAME TO <table>; table names '
+    'connected by RenameModel count as one table).  Clauses: '
+    'no-more-than-unbatched (per table, optimised <= one-at-a-time) and '
+    'mergeable-run-single-rewrite (a model all of whose mutations in the '
+    'sequence are consecutive AddField/DeleteField/ChangeField without '
+    'field_type or db_column/ChangeMeta, in a sequence without model level '
+    'mutations, is rewritten at most once).  Skipped when rejected one at '
+    'a time or when the optimised run is rejected (that is C03).  '
+    'Non-trivial = length >= 2 and at least one rewrite one at a time.'
+)
+
+
+def suite_C18(tier='quick', seed=0):
+    t0 = time.time()
+    _setup()
+    seqs, groups, exhaustive = _seq_scenarios(tier, seed, 'C18')
+    scenarios = []
+
+    for i, seq in enumerate(seqs):
+        sc = {'spec': SEQ_SPEC, 'rows': SEQ_ROWS, 'muts': seq}
+
+        if tier == 'quick':
+            sc['evolver'] = (i % 2 == 0)
+
+        scenarios.append(sc)
+
+    # dedicated mergeable runs: every ordered selection of 2..3 (4) from a
+    # pool of mergeable mutations on one model
+    pool = [
+        ['AddField', 'A', 'x', 'IntegerField', {'initial': 7}],
+        ['AddField', 'A', 'y', 'CharField', {'max_length': 8, 'null': True}],
+        ['DeleteField', 'A', 'a2'],
+        ['ChangeField', 'A', 'a3', {'null': False, 'initial': 'n'}],
+        ['ChangeField', 'A', 'a1', {'max_length': 30}],
+        ['ChangeField', 'A', 'a1', {'db_index': True}],
+        ['ChangeField', 'A', 'a3', {'unique': True}],
+        ['ChangeMeta', 'A', 'unique_together', [['a1', 'a3']]],
+        ['ChangeMeta', 'A', 'index_together', [['a1', 'a3']]],
+        ['ChangeMeta', 'A', 'indexes', [{'fields': ['a1'], 'name': 'ix'}]],
+        ['ChangeMeta', 'A', 'constraints',
+         [{'type': {'__cls__': 'UniqueConstraint'}, 'name': 'uc',
+           'fields': ['a1']}]],
+    ]
+    count = 0
+    sizes = (2, 3) if tier == 'quick' else (2, 3, 4)
+    rng = random.Random(seed)
+
+    for k in sizes:
+        perms = list(itertools.permutations(range(len(pool)), k))
+
+        if k == 3 and tier == 'quick':
+            perms = rng.sample(perms, 200)
+        elif k == 4:
+            perms = rng.sample(perms, 2500)
+
+        for perm in perms:
+            scenarios.append({'spec': SEQ_SPEC, 'rows': SEQ_ROWS,
+                              'muts': [copy.deepcopy(pool[i]) for i in perm],
+                              'evolver': tier != 'quick' or count % 3 == 0})
+            count += 1
+
+    groups.append('mergeable pool selections: %d' % count)
+
+    return _collect('C18', scenarios, KNOWN_C18,
+                    RULE_C18 + '  Scope: ' + '; '.join(groups), exhaustive,
+                    t0, budget=55 if tier == 'quick' else 14 * 60)
+
+
+def replay_C18(inputs):
+    _setup()
+    out = _eval_task(('C18', inputs))
 
     return {'reproduced': bool(out['failures']),
             'clauses': sorted(set(c for c, _o in out['failures'])),
